@@ -11,6 +11,10 @@ Four passes (all on the real dclab code, datasets are RTDC_Dict instances):
  qreal   correspondence  get_quantile_levels on real KDE grids of the meta
                          cases vs perc_lin of the model on the bilinearly
                          interpolated densities (exact dyadic integers)
+ dtype   property oracle  features / positions stored as integer arrays
+                         (int64 ... int8) must give the results of the same
+                         values stored as float64 (every KDE function and
+                         RTDCBase entry point, statistics, downsampling)
  warm    property oracle  a few datasets of 1200-3000 events, 2-4 filter
                          states each (interior exclusions, partly of equal
                          count) analysed in ONE process WITHOUT clearing
@@ -123,6 +127,7 @@ HUGE = 2 ** 70            # in units of 1/8; 2^67 as a float, exact
 SIZES = {"quick": (80, 240, 240, 240, 120),
          "thorough": (1200, 3000, 3000, 3000, 1500)}
 N_WARM = {"quick": 6, "thorough": 32}
+N_DTYPE = {"quick": 30, "thorough": 400}
 
 HEADER = ("From Coq Require Import ZArith List.\nImport ListNotations.\n"
           "From Verif Require Import Model.C12.\n")
@@ -1287,6 +1292,148 @@ def warm_worker(args):
 
 
 # --------------------------------------------------------------------------
+# integer-dtype pass: features and positions stored as integer arrays must
+# give the results of the same values stored as float64
+# --------------------------------------------------------------------------
+INT_DTYPES = ["int64", "int32", "int16", "uint16", "uint8", "int8"]
+SMALL_INT = ("int16", "uint16", "uint8", "int8")
+LOG_SMALL_INT = "[log scale on 8/16-bit integer data] "
+FINDING_LOG_INT = "C12-log-small-int-dtype"
+
+
+def gen_dtype_case(rng):
+    n = rng.choice([3, 5, 9, 20, 40, 80])
+    xdt = rng.choice(INT_DTYPES)
+    ydt = rng.choice(["float64", "float64", "float64"] + INT_DTYPES)
+    pdt = rng.choice(INT_DTYPES)
+
+    def vals(dt):
+        hi = 120 if dt in ("int8", "uint8") else 900
+        lo = 1 if (dt.startswith("u") or rng.random() < .7) else -20
+        style = rng.choice(["spread", "spread", "ties"])
+        if style == "ties":
+            pool = [rng.randint(lo, hi) for _ in range(4)]
+            return [rng.choice(pool) for _ in range(n)]
+        return [rng.randint(lo, hi) for _ in range(n)]
+    yv = vals(ydt) if ydt != "float64" else [rng.randint(1, 400) / 8
+                                             for _ in range(n)]
+    npos = rng.choice([1, 2, 3, 7])
+    return dict(kind="dtype", n=n, xdt=xdt, ydt=ydt, pdt=pdt,
+                xax=rng.choice(["area_um", "index", "frame"]),
+                x=vals(xdt), y=yv,
+                mask=[1 if rng.random() < .7 else 0 for _ in range(n)],
+                px=[rng.randint(1, 120) for _ in range(npos)],
+                py=[rng.randint(1, 120) for _ in range(npos)],
+                down=rng.choice([0, 2, 5]))
+
+
+def dtype_observe(ds, case, xax, pos):
+    import numpy as np
+    from dclab import kde_methods
+    from dclab.cached import Cache
+    Cache.clear_cache()
+    obs = {}
+    x = ds[xax][ds.filter.all]
+    y = ds["deform"][ds.filter.all]
+    for kt in ("histogram", "gauss", "multivariate"):
+        # the estimator functions themselves
+        fn = kde_methods.methods[kt]
+        obs["fn/%s" % kt] = guarded(lambda: fn(x, y))
+        obs["fnpos/%s" % kt] = guarded(lambda: fn(x, y, pos[0].copy(),
+                                                  pos[1].copy()))
+        for xs in SCALES:
+            for ys in SCALES:
+                key = "%s/%s/%s" % (kt, xs, ys)
+                kw = dict(xax=xax, yax="deform", kde_type=kt, xscale=xs,
+                          yscale=ys)
+                obs["scatter/" + key] = guarded(
+                    lambda: ds.get_kde_scatter(**kw))
+                obs["scatterpos/" + key] = guarded(
+                    lambda: ds.get_kde_scatter(
+                        positions=[pos[0].copy(), pos[1].copy()], **kw))
+                obs["contour/" + key] = guarded(
+                    lambda: ds.get_kde_contour(**kw))
+    for xs in SCALES:
+        obs["down/" + xs] = guarded(lambda: ds.get_downsampled_scatter(
+            xax=xax, yax="deform", downsample=case["down"], xscale=xs))
+    from dclab import statistics
+    obs["stats"] = guarded(lambda: statistics.get_statistics(
+        ds, features=[xax, "deform"]))
+    return obs
+
+
+def dtype_worker(args):
+    import warnings
+    warnings.simplefilter("ignore")
+    case, scratch = args
+    import numpy as np
+    import dclab
+    xax = case["xax"]
+    xi = np.array(case["x"], dtype=case["xdt"])
+    yi = np.array(case["y"], dtype=case["ydt"])
+    mask = np.array(case["mask"], dtype=bool)
+    pos_i = [np.array(case["px"], dtype=case["pdt"]),
+             np.array(case["py"], dtype=case["pdt"])]
+    pos_f = [p.astype(np.float64) for p in pos_i]
+    out = {}
+    for tag, xa, ya, pos in (("int", xi, yi, pos_i),
+                             ("float", xi.astype(np.float64),
+                              yi.astype(np.float64), pos_f)):
+        ds = dclab.new_dataset({xax: xa, "deform": ya})
+        ds.filter.manual[:] = mask
+        ds.apply_filter()
+        out[tag] = dtype_observe(ds, case, xax, pos)
+    fails = []
+    small = case["xdt"] in SMALL_INT or case["ydt"] in SMALL_INT or \
+        case["pdt"] in SMALL_INT
+    for k in sorted(out["int"]):
+        a, b = out["int"][k], out["float"][k]
+        tag = LOG_SMALL_INT if (small and "log" in k) else ""
+        if a[0] != b[0] or (a[0] == "exc" and a[1] != b[1]):
+            fails.append("%s%s: integer-typed data give %s, the same values "
+                         "as float64 give %s" % (tag, k, short(a), short(b)))
+            continue
+        if a[0] == "exc":
+            continue
+        if k == "stats":
+            va, vb = a[1][1], b[1][1]
+            for h, u, v in zip(a[1][0], va, vb):
+                if not close(float(u), float(v), 1e-12, 0):
+                    fails.append("statistic %r: %r for integer-typed data, "
+                                 "%r for float64" % (h, float(u), float(v)))
+            continue
+        ra = a[1] if isinstance(a[1], (tuple, list)) else [a[1]]
+        rb = b[1] if isinstance(b[1], (tuple, list)) else [b[1]]
+        for u, v in zip(ra, rb):
+            u, v = np.asarray(u), np.asarray(v)
+            bad = None
+            if u.shape != v.shape:
+                bad = "shape %s vs %s" % (u.shape, v.shape)
+            elif not k.startswith("down") and u.dtype != np.float64:
+                bad = "dtype %s instead of float64" % u.dtype
+            else:
+                uf, vf = u.astype(np.float64), v.astype(np.float64)
+                top = float(np.nanmax(np.abs(vf))) if vf.size and \
+                    np.isfinite(vf).any() else 0.0
+                if not np.allclose(uf, vf, rtol=1e-9, atol=1e-12 * top,
+                                   equal_nan=True):
+                    with np.errstate(all="ignore"):
+                        j = int(np.nanargmax(np.abs(uf - vf).ravel())) \
+                            if np.isfinite(np.abs(uf - vf)).any() else 0
+                    bad = "value %r vs %r" % (float(uf.ravel()[j]),
+                                              float(vf.ravel()[j]))
+            if bad:
+                fails.append("%s%s: integer-typed (%s/%s, positions %s) vs "
+                             "float64 data: %s" % (tag, k, case["xdt"],
+                                                   case["ydt"], case["pdt"],
+                                                   bad))
+                break
+    return dict(fails=fails, counts={}, nontrivial=bool(0 < mask.sum()
+                                                        < case["n"]),
+                m=int(mask.sum()))
+
+
+# --------------------------------------------------------------------------
 # correspondence: statistics
 # --------------------------------------------------------------------------
 def gen_stats_case(rng):
@@ -1642,6 +1789,8 @@ def classify(case, fails):
     differs from the reference estimator"""
     if fails and all(f.startswith(TWO_POS) for f in fails):
         return FINDING_TWO_POS
+    if fails and all(f.startswith(LOG_SMALL_INT) for f in fails):
+        return FINDING_LOG_INT
     return None
 
 
@@ -1750,6 +1899,10 @@ def run(run):
     warm_cases = [c for c in corpus if c.get("kind") == "warm"]
     while len(warm_cases) < N_WARM["thorough" if run.thorough else "quick"]:
         warm_cases.append(gen_warm_case(run.rng))
+    dtype_cases = [c for c in corpus if c.get("kind") == "dtype"]
+    while len(dtype_cases) < N_DTYPE["thorough" if run.thorough
+                                     else "quick"]:
+        dtype_cases.append(gen_dtype_case(run.rng))
     meta_cases = [c for c in corpus if c.get("kind") == "meta"]
     while len(meta_cases) < n_meta:
         meta_cases.append(gen_meta_case(run.rng,
@@ -1762,6 +1915,8 @@ def run(run):
         wfuts = [ex.submit(warm_worker, (c, run.scratch))
                  for c in warm_cases]              # the long ones first
         futs = [ex.submit(meta_worker, (c, run.scratch)) for c in meta_cases]
+        dfuts = [ex.submit(dtype_worker, (c, run.scratch))
+                 for c in dtype_cases]
         s_impl = [stats_impl(c) for c in stats_cases]
         f_impl = [fake_impl(c) for c in fake_cases]
         q_impl = [quant_impl(c) for c in quant_cases]
@@ -1800,8 +1955,25 @@ def run(run):
                 wres.append(f.result())
             except Exception:
                 wres.append(None)
+        dres = []
+        for f in dfuts:
+            try:
+                dres.append(f.result())
+            except Exception:
+                dres.append(None)
     retry_dead(run, meta_cases, results)
     meta_collect(run, meta_cases, results)
+    retry_dead(run, dtype_cases, dres, worker=dtype_worker)
+    for c, r in zip(dtype_cases, dres):
+        run.record_case(c, r["nontrivial"], sample=False)
+        run.count("dtype-case")
+        run.count("dtype:x=%s" % c["xdt"])
+        run.count("dtype:pos=%s" % c["pdt"])
+        if r["fails"]:
+            desc = "; ".join(r["fails"][:4])
+            if len(r["fails"]) > 4:
+                desc += "; ... (%d in total)" % len(r["fails"])
+            run.oracle_failure(c, desc, classify(c, r["fails"]))
     # quantile levels of real KDEs vs the model's exact percentile
     qr_cases = []
     for c, r in zip(meta_cases, results):
@@ -1869,6 +2041,8 @@ def check_case(case, scratch):
         return meta_worker((case, scratch))["fails"]
     if kind == "warm":
         return warm_worker((case, scratch))["fails"]
+    if kind == "dtype":
+        return dtype_worker((case, scratch))["fails"]
     if kind == "stats":
         coq, impl = stats_impl(case)
         m = common.coq_map(scratch, "c12rs", HEADER, "stats_flat", [coq])[0]
